@@ -67,6 +67,9 @@ type c10Case struct {
 	NilPages        bool       `json:"nil_pages,omitempty"`         // empty pages are handed over as nil slices
 	SkipNilLevel    bool       `json:"skip_nil_level,omitempty"`    // SkipVerify answers (true, nil, nil)
 	SkipTrueWithErr bool       `json:"skip_true_with_error,omitempty"` // SkipVerify answers (true, level, err)
+	SameObjects     bool       `json:"same_option_objects,omitempty"`  // history: the SAME PluginConfig / UserMetadata map objects are passed to every call
+	MutVerifier     bool       `json:"mutating_verifier,omitempty"`    // the verifier writes into the option maps it receives (its own fault; the library must still not mutate and must pass on the caller's maps)
+	Frame           []string   `json:"frame_violations,omitempty"`     // caller-owned objects the library changed during the call
 	// observation
 	Res      string   `json:"obs_result"`
 	Desc     string   `json:"obs_descriptor"`
@@ -105,8 +108,85 @@ type world struct {
 	listErr   error
 	resolvErr error
 	fetched   map[int]string // media type handed out by the last fetch of k
-	plugin    map[string]string
+	plugin    map[string]string // the caller's objects, passed to notation.Verify
 	meta      map[string]string
+	// frame check: pristine deep copies, never handed to the library
+	pluginOrig, metaOrig map[string]string
+	pluginExp, metaExp   map[string]string // originals + what a mutating verifier wrote itself
+	resolvedOrig         ocispec.Descriptor
+	manifestOrig         []ocispec.Descriptor
+	shareMaps, mapsBuilt bool
+	frame                []string
+}
+
+func copyMap(m map[string]string) map[string]string {
+	if m == nil {
+		return nil
+	}
+	c := make(map[string]string, len(m))
+	for k, v := range m {
+		c[k] = v
+	}
+	return c
+}
+
+func copyDesc(d ocispec.Descriptor) ocispec.Descriptor {
+	c := d
+	c.Annotations = copyMap(d.Annotations)
+	if d.URLs != nil {
+		c.URLs = append([]string{}, d.URLs...)
+	}
+	if d.Data != nil {
+		c.Data = append([]byte{}, d.Data...)
+	}
+	if d.Platform != nil {
+		pl := *d.Platform
+		if pl.OSFeatures != nil {
+			pl.OSFeatures = append([]string{}, pl.OSFeatures...)
+		}
+		c.Platform = &pl
+	}
+	return c
+}
+
+// snapshotDescs takes the pristine copies of the descriptors the repository hands out.
+func (w *world) snapshotDescs() {
+	w.resolvedOrig = copyDesc(w.resolved)
+	w.manifestOrig = nil
+	for _, m := range w.manifest {
+		w.manifestOrig = append(w.manifestOrig, copyDesc(m))
+	}
+}
+
+func (w *world) framed(format string, a ...any) {
+	if len(w.frame) < 8 {
+		w.frame = append(w.frame, fmt.Sprintf(format, a...))
+	}
+}
+
+// mapOK: the content is the caller's original content (or that plus what a mutating verifier wrote itself)
+func mapOK(got, orig, exp map[string]string) bool {
+	return reflect.DeepEqual(got, orig) || reflect.DeepEqual(got, exp)
+}
+
+// frameCheck compares every caller-owned / repository-owned object that was passed by
+// reference into notation.Verify with its snapshot. (Outcome.Error of a failing outcome is
+// the library's to set: notation.Verify wraps it, as modelled.)
+func (w *world) frameCheck() {
+	if !mapOK(w.plugin, w.pluginOrig, w.pluginExp) {
+		w.framed("VerifyOptions.PluginConfig: now %v, was %v", w.plugin, w.pluginOrig)
+	}
+	if !mapOK(w.meta, w.metaOrig, w.metaExp) {
+		w.framed("VerifyOptions.UserMetadata: now %v, was %v", w.meta, w.metaOrig)
+	}
+	if !reflect.DeepEqual(w.resolved, w.resolvedOrig) {
+		w.framed("descriptor returned by Repository.Resolve (Annotations / URLs / Platform)")
+	}
+	for k := range w.manifest {
+		if k < len(w.manifestOrig) && !reflect.DeepEqual(w.manifest[k], w.manifestOrig[k]) {
+			w.framed("signature manifest descriptor %d (Annotations)", k)
+		}
+	}
 }
 
 func (w *world) bad(format string, a ...any) {
@@ -119,7 +199,7 @@ func (w *world) bad(format string, a ...any) {
 func (w *world) sigOfManifest(d ocispec.Descriptor) int {
 	for k, m := range w.manifest {
 		if m.Digest == d.Digest {
-			if !reflect.DeepEqual(m, d) {
+			if k < len(w.manifestOrig) && !reflect.DeepEqual(w.manifestOrig[k], d) {
 				w.bad("descriptor of signature %d altered", k)
 			}
 			return k
@@ -155,7 +235,7 @@ func (r mockRepo) Resolve(ctx context.Context, reference string) (ocispec.Descri
 func (r mockRepo) ListSignatures(ctx context.Context, desc ocispec.Descriptor, fn func([]ocispec.Descriptor) error) error {
 	w := r.w
 	w.events = append(w.events, event{'L', 0})
-	if !reflect.DeepEqual(desc, w.resolved) {
+	if !reflect.DeepEqual(desc, w.resolvedOrig) {
 		w.bad("ListSignatures got a descriptor other than the resolved one")
 	}
 	pos := 0
@@ -166,7 +246,15 @@ func (r mockRepo) ListSignatures(ctx context.Context, desc ocispec.Descriptor, f
 		if len(p) == 0 && w.c.NilPages {
 			page = nil
 		}
-		if err := fn(page); err != nil {
+		err := fn(page)
+		// the page slice belongs to the repository: the callback must not reorder or rewrite it
+		for j := range page {
+			if !reflect.DeepEqual(page[j], w.manifestOrig[pos-len(p)+j]) {
+				w.framed("page slice handed to the ListSignatures callback (element %d of the page)", j)
+				break
+			}
+		}
+		if err != nil {
 			return err
 		}
 	}
@@ -215,10 +303,23 @@ func (v *plainVerifier) Verify(ctx context.Context, desc ocispec.Descriptor, sig
 		w.bad("Verify got a blob that no fetch returned")
 		return nil, errors.New("mock: unknown blob")
 	}
-	if !reflect.DeepEqual(desc, w.resolved) {
+	if !reflect.DeepEqual(desc, w.resolvedOrig) {
 		w.bad("Verify(%d) got a descriptor other than the resolved one", k)
 	}
-	w.checkOpts("Verify", opts, w.fetched[k])
+	w.checkOpts(fmt.Sprintf("Verify(%d)", k), opts, w.fetched[k])
+	if w.c.MutVerifier {
+		// a badly behaved verifier: writes into the maps it was given (and the harness
+		// does the same to its expectation of what the caller's maps then hold)
+		for _, pair := range [][2]map[string]string{{opts.PluginConfig, w.pluginExp}, {opts.UserMetadata, w.metaExp}} {
+			for _, m := range pair {
+				if m != nil {
+					m["touched-by-verifier"] = fmt.Sprint(k)
+					delete(m, "mk")
+					delete(m, "pk")
+				}
+			}
+		}
+	}
 	switch w.kinds[k] {
 	case kG:
 		return w.outcome[k], nil
@@ -240,8 +341,13 @@ func (w *world) checkOpts(who string, opts notation.VerifierVerifyOptions, wantM
 	if opts.SignatureMediaType != wantMT {
 		w.bad("%s: SignatureMediaType %q, want %q", who, opts.SignatureMediaType, wantMT)
 	}
-	if !reflect.DeepEqual(opts.PluginConfig, w.plugin) || !reflect.DeepEqual(opts.UserMetadata, w.meta) {
-		w.bad("%s: PluginConfig/UserMetadata not passed through", who)
+	// compared with pristine copies of the caller's content (not with the caller's own map
+	// objects, which the library may have been handed and changed)
+	if !mapOK(opts.PluginConfig, w.pluginOrig, w.pluginExp) {
+		w.bad("%s: PluginConfig received %v, the caller's is %v", who, opts.PluginConfig, w.pluginOrig)
+	}
+	if !mapOK(opts.UserMetadata, w.metaOrig, w.metaExp) {
+		w.bad("%s: UserMetadata received %v, the caller's is %v", who, opts.UserMetadata, w.metaOrig)
 	}
 }
 
@@ -303,7 +409,7 @@ func newWorld(c *c10Case) *world {
 // outcomes are fresh objects for every call.
 func (w *world) script(c *c10Case) {
 	w.c = c
-	w.events, w.argsOK, w.notes, w.fetched = nil, true, nil, map[int]string{}
+	w.events, w.argsOK, w.notes, w.fetched, w.frame = nil, true, nil, map[int]string{}, nil
 	w.resolved = ocispec.Descriptor{MediaType: "application/vnd.oci.image.manifest.v1+json", Digest: resolvedDigest(c.Resolved), Size: 528}
 	if c.WithMeta {
 		// a descriptor with every optional field set: a copy that drops fields is visible
@@ -317,13 +423,18 @@ func (w *world) script(c *c10Case) {
 		lv := *trustpolicy.LevelSkip
 		w.level = &lv
 	}
-	w.plugin, w.meta = nil, nil
-	if c.WithMeta {
-		w.plugin = map[string]string{"pk": "pv", "empty": ""}
-		w.meta = map[string]string{"mk": "mv"}
-	} else if c.EmptyMeta {
-		w.plugin = map[string]string{}
-		w.meta = map[string]string{}
+	if !(w.shareMaps && w.mapsBuilt) {
+		w.plugin, w.meta = nil, nil
+		if c.WithMeta {
+			w.plugin = map[string]string{"pk": "pv", "empty": "", "pk2": "pv2"}
+			w.meta = map[string]string{"mk": "mv", "mk2": ""}
+		} else if c.EmptyMeta {
+			w.plugin = map[string]string{}
+			w.meta = map[string]string{}
+		}
+		w.pluginOrig, w.metaOrig = copyMap(w.plugin), copyMap(w.meta)
+		w.pluginExp, w.metaExp = copyMap(w.plugin), copyMap(w.meta)
+		w.mapsBuilt = true
 	}
 	w.kinds = nil
 	for _, p := range c.Pages {
@@ -350,6 +461,7 @@ func (w *world) script(c *c10Case) {
 	for k := range w.manifest {
 		w.outcome = append(w.outcome, &notation.VerificationOutcome{RawSignature: w.blob[k], VerificationLevel: trustpolicy.LevelStrict})
 	}
+	w.snapshotDescs()
 }
 
 // classifyRef asks oras (the oracle) what the reference is.
@@ -371,7 +483,16 @@ func classifyRef(ref string, resolvedDigest string) (class string, wantRef strin
 }
 
 func execMock(c *c10Case) (panicked any) {
-	w := newWorld(c)
+	w := &world{shareMaps: c.SameObjects}
+	w.skipErr = errors.New("mock: trust policy unreadable")
+	w.listErr = errors.New("mock: referrers API failed")
+	w.resolvErr = errors.New("mock: resolve failed")
+	if c.SameObjects {
+		// one pair of option maps for the whole history: same content wanted at every call
+		for _, p := range c.Prior {
+			p.WithMeta, p.EmptyMeta, p.SameObjects = c.WithMeta, c.EmptyMeta, true
+		}
+	}
 	// ONE verifier and ONE repository instance for the whole history
 	var vInst notation.Verifier
 	if c.Skip == "NoSkipper" {
@@ -402,7 +523,7 @@ func execMock(c *c10Case) (panicked any) {
 		if panicked != nil {
 			return panicked
 		}
-		c.Res, c.Desc, c.Outs, c.Log, c.ArgNotes, c.ErrText = "", "", "", nil, nil, ""
+		c.Res, c.Desc, c.Outs, c.Log, c.ArgNotes, c.ErrText, c.Frame = "", "", "", nil, nil, "", nil
 		observe(c, w, desc, outs, err, func(k int) int { return k })
 		return nil
 	}
@@ -421,7 +542,7 @@ func observe(c *c10Case, w *world, desc ocispec.Descriptor, outs []*notation.Ver
 	switch {
 	case reflect.DeepEqual(desc, ocispec.Descriptor{}):
 		c.Desc = "DZero"
-	case reflect.DeepEqual(desc, w.resolved):
+	case reflect.DeepEqual(desc, w.resolvedOrig):
 		c.Desc = "DResolved"
 	default:
 		c.Desc = "DOther"
@@ -462,6 +583,8 @@ func observe(c *c10Case, w *world, desc ocispec.Descriptor, outs []*notation.Ver
 	}
 	c.ArgsOK = w.argsOK
 	c.ArgNotes = w.notes
+	w.frameCheck()
+	c.Frame = w.frame
 }
 
 func classifyErr(c *c10Case, w *world, err error, pos func(int) int) string {
@@ -590,8 +713,8 @@ func caseTerm(id int64, c *c10Case) string {
 
 // caseKey identifies the input of one call (for the count of distinct cases)
 func caseKey(c *c10Case) string {
-	return fmt.Sprintf("%v|%v|%d|%s|%s|%s|%s|%v|%v|%v|%v|%d|%v|%v|%v|%v", c.NilV, c.NilR, c.Max, c.Skip, c.RefClass, c.Ref, c.Resolved, c.ResolveErr, c.Pages, c.ListErr, c.RealRepo,
-		c.FetchErr, c.EmptyMeta, c.NilPages, c.SkipNilLevel, c.SkipTrueWithErr)
+	return fmt.Sprintf("%v|%v|%d|%s|%s|%s|%s|%v|%v|%v|%v|%d|%v|%v|%v|%v|%v|%v|%v", c.NilV, c.NilR, c.Max, c.Skip, c.RefClass, c.Ref, c.Resolved, c.ResolveErr, c.Pages, c.ListErr, c.RealRepo,
+		c.FetchErr, c.EmptyMeta, c.NilPages, c.SkipNilLevel, c.SkipTrueWithErr, c.SameObjects, c.MutVerifier, c.WithMeta)
 }
 
 func compositions(n int) [][]int {
@@ -649,6 +772,7 @@ func runC10(a *Args) error {
 		"Repository.ListSignatures hands the callback consecutive pages in listing order and returns the callback's first error (contract of registry.Repository; the scripted repository and the real OCI-layout repository both do)",
 		"reference classes (invalid / no tag or digest / tag / digest) are those reported by oras registry.ParseReference and ValidateReferenceAsDigest, asked by the harness for every reference string",
 		"a Verifier that returns no error returns a non-nil outcome (a verifier failing WITHOUT an outcome is modelled: kind NO)",
+		"frame check (Go side, every case): PluginConfig / UserMetadata maps of VerifyOptions, the descriptor Resolve returned, the signature manifest descriptors and the page slices are deep-snapshotted before the call; any change by notation.Verify is an implementation violation (footprint frame); every SkipVerify / Verify call must receive option maps with the caller's original content (a verifier that itself writes into them is scripted in some cases: only its own writes are tolerated)",
 		"error classes are recognised by Go type (errors.As), identity of the injected errors, and the fixed message texts of notation.go",
 	}
 
@@ -678,6 +802,21 @@ func runC10(a *Args) error {
 			w.ImplViolation(my, fmt.Sprintf("notation.Verify panicked: %v", pan), c, "panic")
 			w.Count("result", "panic")
 			return
+		}
+		for _, p := range c.Prior {
+			if len(p.Frame) > 0 {
+				w.ImplViolation(my, "library mutated caller-owned "+p.Frame[0]+" (in an earlier call of this history)", c, "frame")
+				break
+			}
+		}
+		if len(c.Frame) > 0 {
+			w.ImplViolation(my, "library mutated caller-owned "+c.Frame[0], c, "frame")
+		}
+		if c.SameObjects {
+			w.Count("history_same_option_objects", fmt.Sprint(len(c.Prior)+1))
+		}
+		if c.MutVerifier {
+			w.Count("mutating_verifier", "yes")
 		}
 		reaches := !c.NilV && !c.NilR && c.Max > 0 && (c.Skip == "NoSkipper" || c.Skip == "SkipNo") && (c.RefClass == "RTag" || c.RefClass == "RDigSame") && !c.ResolveErr
 		nontriv := (reaches && (n >= 2 || len(c.Prior) > 0)) || (!c.NilV && !c.NilR && (c.Max <= 0 || c.Skip == "SkipYes" || c.RefClass == "RDigDiff" || c.RefClass == "RNone"))
@@ -716,6 +855,7 @@ func runC10(a *Args) error {
 		c := &c10Case{Family: fam, Max: max, Skip: Pick(rng, reachSkip), Ref: reachRef(), Pages: pages, ListErr: rng.Chance(1, 8), WithMeta: rng.Bool(),
 			FetchErr: rng.Intn(4), NilPages: rng.Bool()}
 		c.EmptyMeta = !c.WithMeta && rng.Bool()
+		c.MutVerifier = rng.Chance(1, 4)
 		return c
 	}
 
@@ -789,6 +929,10 @@ func runC10(a *Args) error {
 			plain := (x+y)%2 == 0
 			c := tmpls[y](plain)
 			c.Prior = []*c10Case{tmpls[x](plain)}
+			if (x+2*y)%3 != 0 { // two thirds of the histories pass the SAME option maps to every call
+				c.SameObjects, c.WithMeta = true, true
+				c.MutVerifier = (x+y)%5 == 0
+			}
 			emit(c)
 		}
 	}
@@ -799,10 +943,12 @@ func runC10(a *Args) error {
 	for k := 0; k < nH; k++ {
 		plain := rng.Bool()
 		steps := 3 + rng.Intn(2)
+		same, mut := rng.Chance(2, 3), rng.Chance(1, 4)
 		var hist []*c10Case
 		for j := 0; j < steps; j++ {
 			c := Pick(rng, tmpls)(plain)
-			c.WithMeta = c.WithMeta || rng.Bool()
+			c.WithMeta = c.WithMeta || rng.Bool() || same
+			c.SameObjects, c.MutVerifier = same, mut
 			c.FetchErr = rng.Intn(4)
 			if j >= 2 {
 				c.Prior = append([]*c10Case{}, hist...)
